@@ -189,6 +189,9 @@ def c18(tier, seed):
     _book_sessions(c, seed + 7, 32 if q else 400)
     for k in ["geo:ep:left", "geo:ep:right", "geo:ep:both", "geo:ep:none"]:
         c.require(k, 200)
+    for m in range(16):
+        c.require("castle-set:%d" % m, 300)
+    c.require("synth:many-pieces", 1000)
     c.require("keys-after-make-unmake", 20000)
     c.require("uci-book-answers", 60)
     c.require("uci-book-sessions:root-via-moves-command", 5)
